@@ -16,7 +16,19 @@ func Harness_sleep() {
 	ms2 := vrt.IntRange("ms2", 0, 1<<20)
 	d := vrt.IntRange("deadline_ms", 1, 1<<20)
 	var prog MalType
-	switch vrt.Concrete(vrt.Choice("shape", 5)) {
+	e := env.NewSubordinateEnv(Base)
+	shape := vrt.Param("shapelo", 0) + vrt.Concrete(vrt.Choice("shape", vrt.Param("shapes", 5)))
+	if shape >= 5 {
+		// waiting on a future that another evaluation started earlier under its own (unlimited) context: the wait
+		// is bounded by the context of the evaluation that waits. (Durations up to 3 s so that a native replay ends.
+		// Both are multiples of 500 ms, so that being late means being late by more than the latency allowance
+		// of the native replay.)
+		ms = 500 * vrt.IntRange("ms_units", 0, 6)
+		d = 500 * vrt.IntRange("deadline_units", 1, 6)
+		_, derr := lisp.EVAL(context.Background(), lst(sym("def"), sym("fut"), lst(sym("future"), lst(sym("sleep"), ms))), e)
+		vrt.Assert(derr == nil, "creating a future failed")
+	}
+	switch shape {
 	case 0:
 		prog = lst(sym("sleep"), ms)
 	case 1:
@@ -25,14 +37,17 @@ func Harness_sleep() {
 		prog = lst(sym("try"), lst(sym("sleep"), ms), lst(sym("catch"), sym("e"), lst(sym("sleep"), ms2)))
 	case 3:
 		prog = lst(sym("try"), lst(sym("sleep"), ms), lst(sym("catch"), sym("e"), lst(sym("sleep"), ms2)), lst(sym("finally"), lst(sym("sleep"), ms2)))
-	default:
+	case 4:
 		// waiting on a future whose body sleeps
 		prog = lst(sym("deref"), lst(sym("future"), lst(sym("sleep"), ms)))
+	case 5:
+		prog = lst(sym("deref"), sym("fut"))
+	default:
+		prog = lst(sym("try"), lst(sym("deref"), sym("fut")), lst(sym("catch"), sym("e"), lst(sym("deref"), sym("fut"))), lst(sym("finally"), lst(sym("deref"), sym("fut"))))
 	}
 	start := vrt.Now()
 	ctx, cancel := context.WithTimeout(context.Background(), time.Duration(d)*time.Millisecond)
 	defer cancel()
-	e := env.NewSubordinateEnv(Base)
 	_, err := lisp.EVAL(ctx, prog, e)
 	elapsed := vrt.Now() - start
 	limit := int64(d) * int64(time.Millisecond)
@@ -40,7 +55,11 @@ func Harness_sleep() {
 		// native replay runs in wall-clock time: scheduler and timer latency are outside the claim
 		limit += int64(200 * time.Millisecond)
 	}
-	vrt.Observe("err", err != nil)
+	vrt.Observe("~err", err != nil)
 	vrt.Assert(elapsed <= limit, "evaluation of a sleeping program returned after its deadline")
 	vrt.Reach("end")
 }
+
+// Harness_wait: the shapes of Harness_sleep in which the evaluation waits on a future started earlier
+// by another evaluation under another context (parameters shapelo=5, shapes=2).
+func Harness_wait() { Harness_sleep() }
